@@ -90,6 +90,15 @@ def judge_twice(s, docs, how, tmpdir):
                            wit, status='twice')
 
 
+def all_schema_shaped(docs):
+    from xml.etree import ElementTree as ET
+    from ..spec import interpret
+    try:
+        return all(interpret(ET.fromstring(d)).tags_ok for d in docs)
+    except Exception:
+        return False
+
+
 def judge_collection(s, docs, how, strict, tmpdir, label, allow_incomplete=True):
     mc, cerr = K.make_collection(s, docs, how, allow_incomplete, tmpdir)
     wit = {'type': 'collection', 'docs': docs, 'strict': strict, 'how': how, 'allow_incomplete': allow_incomplete}
@@ -118,7 +127,11 @@ def judge_collection(s, docs, how, strict, tmpdir, label, allow_incomplete=True)
         if ns:
             s.custom_violation('non-strict-warning-in-strict-mode', det, wit, status='strict')
     else:
-        foreign = ferr is not None       # fold stopped on a non-MosMergeError: C12 territory, not judged here
+        foreign = ferr is not None       # the fold stopped on a non-MosMergeError as well
+        if foreign and merr is not None and all_schema_shaped(docs):
+            # every message has the tags its type requires, and the non-strict merge did not run to the end
+            s.custom_violation('non-strict-merge-raised', dict(det, note='the one-by-one fold raises the same way'), wit,
+                               status='nonstrict')
         if not foreign:
             if merr is not None:
                 s.custom_violation('non-strict-merge-raised', det, wit, status='nonstrict')
@@ -167,6 +180,8 @@ def run(s):
                 continue
             rng = s.rng('long', c)
             pool = gen.text_pool('plain')
+            if c % 4 == 2:
+                pool = gen.text_pool('hostile')      # non-ASCII text, and (below) strings that still carry a declaration
             ro_txt = gen.rand_ro(rng, n_stories=rng.randint(0, 5), pool=pool, message_id=rng.choice([1, 1, 1, 14, 23]))
             state = Abs(ro_txt)
             ids = gen.Ids('L%d.' % c)
@@ -186,6 +201,11 @@ def run(s):
                 EV.drain()
                 docs[0] = str(base)
             rng.shuffle(docs)
+            if c % 4 == 2 and hows[c % 3] == 'strings':
+                # a str has no encoding: a declaration left in it (text read from a Latin-1 file) changes nothing
+                docs = [('<?xml version="1.0" encoding="ISO-8859-1"?>\n' + d) if not d.lstrip().startswith('<?xml') and
+                        '<!DOCTYPE' not in d else d for d in docs]
+                s.hist['collections_of_declared_strings'] += 1
             for strict in (True, False):
                 judge_collection(s, docs, hows[c % 3], strict, tmpdir, 'random' if c % 7 != 3 else 'completed-base')
             if c % 5 == 1:
